@@ -24,10 +24,12 @@ claim("C03", "DESIGN.md 5/C03", "Lean 4 non-interference theorem over the execut
       "whole-array statistics included. The mask-superset / undefined-only clauses are decided on the implementation by oracle and by "
       "the correspondence with the model (a Lean mask theorem for all commands is not yet proved: partial).",
       TB)
-claim("C05", "DESIGN.md 5/C05", "Lean 4 theorem (shape) + differential correspondence + permutation/reshape/layout twin oracles",
-      "Theorem MPilot.C05.shape_preserved: every data command that succeeds returns the shape of its first input, any rank. Cell independence "
-      "(common permutation / reshape / memory layout of the inputs) is decided on the implementation by twin runs and by the correspondence on rank 1-3 "
-      "shapes; permutation invariance in the *inputs list* is proved in C06/C07. Equivariance under cell permutations is not yet a theorem: partial.",
+claim("C05", "DESIGN.md 5/C05 and 9", "Lean 4 theorems (shape; equivariance under any common rearrangement of the cells) + differential correspondence + permutation/reshape/layout twin oracles",
+      "Theorems in MPilot.C05: shape_preserved - every data command that succeeds returns the shape of its first input, any rank; rearr_equivariant - applying one rearrangement "
+      "(any permutation of the cell positions and/or a new shape) to every input gives the original outcome rearranged in exactly the same way (same error, or the same cells at the new "
+      "positions under the new shape), for all 31 commands incl. the whole-array statistics (min, max, mean, standard deviation, mean-to-mid points: proved invariant under permutation). "
+      "The real bodies are tied to the model by the correspondence on rank 1-3 shapes, grids enumerating all value pairs, and twin runs (permutation, reshape, Fortran layout) on the implementation. "
+      "Memory layout (strides) is not in the model: decided by the layout twin only.",
       TB)
 claim("C06", "DESIGN.md 5/C06", "Lean 4 theorems (definitions, algebra, order invariance) + exhaustive-lattice correspondence + reference/algebra oracles",
       "Theorems in MPilot.C06: Or/And cell = max/min of the column; Not negates, is an involution; De Morgan; And <= Union <= Or; xor stays in range; "
